@@ -68,6 +68,10 @@ def run_stream(cfg, passes=1, observe=None, rng=None, record=False,
     res.cfg = cfg
     n_true = cfg["n"]
     res.n_true = n_true
+    n_fin = n_true          # the value handed to finalize()
+    if cfg.get("ints") == "np":
+        import numpy as np
+        n_fin = np.int64(n_true)
     try:
         s, out = build_captured(cfg)
     except Exception as e:
@@ -237,7 +241,7 @@ def run_stream(cfg, passes=1, observe=None, rng=None, record=False,
         if need_fin:
             if finalize_mode == "eager":
                 try:
-                    s.finalize(n_true)
+                    s.finalize(n_fin)
                     ex.finalize_done(True)
                 except Exception as e:
                     ex.ck("C10", "eager_finalize_accepted", False,
@@ -252,7 +256,7 @@ def run_stream(cfg, passes=1, observe=None, rng=None, record=False,
             # forward stands at the end (a legal no-op)
             try:
                 if s.n == n_true:
-                    s.finalize(n_true)
+                    s.finalize(n_fin)
                     ex.evals["C10.redundant_finalize_calls"] += 1
             except Exception as e:
                 ex.ck("C10", "redundant_finalize_is_noop", False,
